@@ -111,7 +111,20 @@ pub fn gen_unknown(s: &mut Src) -> String {
         "debug maybe",
         "setoption value",
     ];
-    let t = match s.weighted(&[45, 25, 30, 9]) {
+    let t = match s.weighted(&[45, 25, 30, 9, 3]) {
+        4 => {
+            // a very long line (up to ~70 000 characters): nothing bounds the length of a line
+            let n = *s.pick(&[300usize, 1_000, 4_100, 8_200, 16_400, 33_000, 66_000, 70_000]);
+            let word = ["x", "abc", "e2e4", "zzzzzzzz"][s.below(4)];
+            let mut t = String::with_capacity(n + 16);
+            while t.len() < n {
+                t.push_str(word);
+                if s.below(3) == 0 || t.len() % 97 == 0 {
+                    t.push(' ');
+                }
+            }
+            t
+        }
         3 => {
             // words containing bytes that are not valid UTF-8 (written as RAW_BYTE_MARK + two hex
             // digits; `raw_bytes` turns them into the bytes themselves on the way to the engine)
